@@ -136,10 +136,18 @@ func TestDriveC04(t *testing.T) {
 					poll(j)
 					ctl.Cycle(cv, step)
 				}
+				wf := -1
+				if i%3 == 2 {
+					wf = 2 + r.Intn(20) // one refused PWM write somewhere in the constant stretch: the approach goes on as if nothing happened
+				}
 				for j := 0; j < k; j++ {
 					time.Sleep(time.Duration(step) * time.Millisecond)
 					poll(j)
-					ctl.Cycle(c, step)
+					if j == wf {
+						ctl.CycleWriteFault(c, step)
+					} else {
+						ctl.Cycle(c, step)
+					}
 				}
 			})
 		}
